@@ -1998,19 +1998,15 @@ impl BytecodeVM {
         // Create guarded exception value
         let guarded = Guarded::from_value(exception, &interp.heap);
 
-        // Try to find an exception handler
-        if let Some((handler_ip, is_catch)) = self.find_exception_handler(interp) {
-            self.ip = handler_ip;
-            if is_catch {
-                self.exception_value = Some(guarded);
-            } else {
-                self.pending_completion = Some(PendingCompletion::Throw(guarded));
+        // Try to find an exception handler: first in the current frame, then in the
+        // callers on the trampoline stack (exactly as for an exception thrown here)
+        match self.handle_error_with_trampoline_unwind(interp, JsError::ThrownValue { guarded }) {
+            Ok(()) => true,
+            Err(error) => {
+                // No handler found - store exception for propagation
+                self.exception_value = Some(self.error_to_guarded(interp, error));
+                false
             }
-            true
-        } else {
-            // No handler found - store exception for propagation
-            self.exception_value = Some(guarded);
-            false
         }
     }
 
